@@ -52,6 +52,7 @@ def _split(lines):
 def run(ctx):
     ctx.prepare()
     ctx.obligations("NGF.Props.C08")
+    ctx.obligations("NGF.Props.C08Drift")
     if ctx.tier == "thorough":
         ctx.leanchecker("NGF.Props.C08")
     if not getattr(ctx, "harness_ok", False):
@@ -130,6 +131,11 @@ def run(ctx):
         clause = v.split()[1]
         kind = _kind(r["M"])
         sig = f"C08:{clause}:{kind}"
+        # policies have an "ancestor list is full" check on the graph side; it looks at the cached object. When the
+        # computed ancestors fitted there and the LIVE object holds more foreign ancestors, the overflow is the
+        # known live-drift defect (the judge decides that from the snapshot: `drift=1`)
+        if clause == "entries-exceed-maxItems" and " drift=1" in v and kind in ("NGFPolicy", "BackendTLSPolicy"):
+            sig += ":live-drift"
         clause_hist[sig] += 1
         if sig not in seen_sig:
             seen_sig.add(sig)
@@ -193,6 +199,10 @@ def run(ctx):
     fields = collections.Counter(dict(f.split("=", 1) for f in r.get("I", "profile=?").split(" ")).get("profile", "?")
                                  for r in recs if "one-field:" in r.get("I", ""))
     ops = collections.Counter()
+    drift_ops = collections.Counter()
+    drift_foreign = collections.Counter()
+    drift_cases = 0
+    edits_between_attempts = 0
     sched_len = collections.Counter()
     prev_sizes = collections.Counter()
     calls = collections.Counter()
@@ -202,7 +212,18 @@ def run(ctx):
         s = [] if kv["sched"] == "*" else kv["sched"].split(",")
         sched_len[len(s)] += 1
         for o in s:
+            if o.startswith("e"):
+                edits_between_attempts += 1
+                o = o.split("+", 1)[1]
             ops[o[0]] += 1
+        d = _info(r).get("drift", "-")
+        if d != "-":
+            drift_cases += 1
+            dn, sf, lf, own = d.split(":")
+            for x in dn.split("+"):
+                drift_ops[x] += 1
+            if kv["kind"] in ("NGFPolicy", "BackendTLSPolicy", "SnippetsFilter") and int(lf) >= 13 or int(lf) >= 29:
+                drift_foreign[f"{kv['kind']}:snapshot {sf} -> live {lf} foreign + {own} own"] += 1
         prev_sizes[min(0 if kv["store"] == "*" else kv["store"].count(";") + 1, 24) // 4 * 4] += 1
         c = r["O"].split("/subs:")[0][len("calls:"):]
         calls[c] += 1
@@ -224,7 +245,10 @@ def run(ctx):
         "via_real_updater": len(urecs),
         "kinds": dict(kinds), "variants": dict(variants), "prev_profiles": dict(profiles),
         "one_field_perturbations": dict(fields),
-        "schedule_ops": dict(ops), "schedule_length": {str(k): v for k, v in sorted(sched_len.items())},
+        "schedule_ops": dict(ops),
+        "live_drift_cases": drift_cases, "live_drift_edits": dict(drift_ops),
+        "live_drift_near_limit": dict(sorted(drift_foreign.items())[:60]),
+        "edits_between_attempts": edits_between_attempts, "schedule_length": {str(k): v for k, v in sorted(sched_len.items())},
         "prev_entries_histogram_by_4": {str(k): v for k, v in sorted(prev_sizes.items())},
         "client_call_sequences": dict(calls.most_common(20)),
         "skipped_no_request": dict(skipped),
@@ -239,8 +263,9 @@ def run(ctx):
         "the submitted status; the API server admits exactly the statuses within the CRD limits",
         "'no-op when only the transition time would change' is read set-wise for own entries when the previous status "
         "holds duplicated own entries (DESIGN §8); such cases are counted in judge_stats.dupown/dupkept",
-        "policy ancestors: the computed status is derived (through the real ancestor-full checks) from the same previous "
-        "status the first attempt fetches; later conflicting writers never add foreign ancestors",
+        "policy ancestors: the computed status is derived (through the real ancestor-full checks) from a SNAPSHOT of the "
+        "object; in a quarter of the cases the live object the retry function fetches has drifted from it (foreign entries "
+        "added up to the CRD limit / removed / reordered / altered), and other writers edit the object between attempts",
     ], trusted=[
         "harness/c08 conversion between API structs and the entry-list view (ParentReference fields, flattened GatewayStatus)",
         "mini YAML reader of the translator for the CRD limits",
